@@ -361,5 +361,31 @@ func c11(r *core.Report) {
 		if k == 0 {
 			core.Fail("resolvePath never returns its reference parameter")
 		}
+		// a relative reference is joined to the base's directory and takes its own query along
+		jd := p.DeclOf("openapi3", "join")
+		var jn []*ast.Ident
+		for _, f := range jd.Type.Params.List {
+			jn = append(jn, f.Names...)
+		}
+		if len(jn) != 2 {
+			core.Fail("join: expected (basePath, relativePath)")
+		}
+		rel := info.ObjectOf(jn[1])
+		good := false
+		ast.Inspect(jd.Body, func(nd ast.Node) bool {
+			as, ok := nd.(*ast.AssignStmt)
+			if !ok || len(as.Lhs) != 1 || len(as.Rhs) != 1 {
+				return true
+			}
+			l, okL := ast.Unparen(as.Lhs[0]).(*ast.SelectorExpr)
+			rr, okR := ast.Unparen(as.Rhs[0]).(*ast.SelectorExpr)
+			if okL && okR && l.Sel.Name == "RawQuery" && rr.Sel.Name == "RawQuery" {
+				if id, ok := ast.Unparen(rr.X).(*ast.Ident); ok && info.ObjectOf(id) == rel {
+					good = true
+				}
+			}
+			return true
+		})
+		r.Check(good, "base:join/query", p.Pos(jd.Pos()), "the joined location has the reference's query", "join copies the referring document's location and replaces only its path: a relative reference inside http://h/spec.yml?token=T is read at http://h/other.yml?token=T, with the base's query instead of its own")
 	})
 }
